@@ -118,7 +118,7 @@ func BuildLiveScenario(seed int64, ahead time.Duration) (*Scenario, time.Time, t
 			commitmenttypes.GetSDKSpecs(), commitmenttypes.MerklePrefix{KeyPrefix: []byte("xibc")}, 0)
 	}
 	create("tm-live", tmCS(14*24*time.Hour), hdrB.ConsensusState())
-	create("tm-exp-1", tmCS(c.Sub(tB)), hdrB.ConsensusState())               // expires exactly at C
+	create("tm-exp-1", tmCS(c.Sub(tB)), hdrB.ConsensusState())                  // expires exactly at C
 	create("tm-exp-2", tmCS(c.Add(time.Second).Sub(tB)), hdrB.ConsensusState()) // one second later
 	// ---- Ethereum (chain id 4, no proof of work): future bound "time > now + 15 s", expiry "time + period < now"
 	cu := uint64(c.Unix())
